@@ -533,6 +533,7 @@ func runC07(e *Engine, r *Report) {
 	ruleConfigChangeClearsPending(e, r)
 	ruleRemovedLeaderStepsDown(e, r)
 	ruleNotifyApplied(e, r)
+	ruleConfigChangeNeverSkipped(e, r)
 	ruleBootstrapSorted(e, r)
 	ruleCampaignPredicate(e, r)
 	ruleElectionMessageGuard(e, r)
